@@ -10,6 +10,22 @@ use crate::Env;
 /// Compare prepare and enforce of profile `p` on `s` with the reference
 /// pipeline. Returns the library's enforce result and the reference trace.
 pub fn check_prepare_enforce(env: &Env, p: Prof, s: &str, rec: &mut Rec, sigpfx: &str) -> (R, Trace) {
+    // a different profile is called on the very same input first (result ignored): whatever the history, the
+    // profile under test must answer what the pure reference says
+    let h = s.len() + s.chars().next().map(|c| c as usize).unwrap_or(0);
+    let other = api::ALL_PROF[(api::ALL_PROF.iter().position(|q| *q == p).unwrap() + 1 + h % 3) % 4];
+    match h % 4 {
+        0 => {
+            let _ = api::s_enforce(other, s);
+        }
+        1 => {
+            let _ = api::enforce(other, s);
+        }
+        2 => {
+            let _ = api::s_compare(other, s, s);
+        }
+        _ => {}
+    }
     let mut tr = Trace::default();
     let want_p = pipes::prepare_ref(env, p, s, &mut tr);
     let got_p = api::prepare(p, s);
@@ -37,6 +53,20 @@ pub fn check_prepare_enforce(env: &Env, p: Prof, s: &str, rec: &mut Rec, sigpfx:
                 case: format!("profile={};label={}", p.name(), util::esc(s)),
                 expected: pipes::show_set(&want_e),
                 observed: api::show_r(&got_e),
+            },
+        );
+    }
+    // the same call with an owned argument (String) must give the same content
+    let owned = api::fresh_call(p, true, s, api::ArgForm::String).map(|x| x.0);
+    rec.eval();
+    if owned != got_e {
+        rec.violation(
+            &format!("{}-enforce-owned-argument-differs", sigpfx),
+            Witness {
+                op: format!("{}::enforce(String) vs enforce(&str)", p.name()),
+                case: format!("profile={};label={}", p.name(), util::esc(s)),
+                expected: api::show_r(&got_e),
+                observed: api::show_r(&owned),
             },
         );
     }
@@ -173,7 +203,7 @@ pub fn username_input(env: &Env, rng: &mut Rng, j: usize) -> String {
 pub fn run(env: &Env) -> Rec {
     let mut rec = Rec::new();
     // exhaustive 9-symbol multi-byte strings
-    let max_len = if env.quick() { 4 } else { 6 };
+    let max_len = if env.quick() { 5 } else { 7 };
     let k = gen::ALPHA9.len();
     let total = util::n_strings(k, max_len);
     let per = 2048usize;
@@ -186,7 +216,7 @@ pub fn run(env: &Env) -> Rec {
     });
     rec.merge(r1);
     rec.exhaustive(format!("all strings up to length {} over the 9-symbol 1-4 byte alphabet {{SP,A0,3000,a,A,E9,20AC,FF21,1F600}}", max_len));
-    let n = env.n(300_000, 10_000_000);
+    let n = env.n(3_000_000, 80_000_000);
     let per = 1000usize;
     let r2 = par(n.div_ceil(per), |c, rec| {
         let mut rng = Rng::stream(env.seed, 0x04_0000 + c as u64);
@@ -196,6 +226,13 @@ pub fn run(env: &Env) -> Rec {
         }
     });
     rec.merge(r2);
+    let n_long = env.n(15_000, 500_000);
+    let per = 200usize;
+    let r3 = par(n_long.div_ceil(per), |c, rec| {
+        let mut rng = Rng::stream(env.seed, 0x04_C000 + c as u64);
+        super::hostile::drive(&mut rng, per, 65536, |rng| { let j = rng.below(10); let s = username_input(env, rng, j); s.chars().take(6).collect() }, |s| check(env, s, rec));
+    });
+    rec.merge(r3);
     for s in ["", "\u{FF21}", "\u{3000}", "\u{FF9E}", "\u{FF76}\u{FF9E}", "A\u{30C}", "\u{5D0}1", "1\u{5D0}"] {
         check(env, s, &mut rec);
     }
